@@ -356,6 +356,13 @@ func c07GateOne(env *fw.Env, cs c07Case) {
 		peer.Data(1, 1, true, 0x1234, 0xA0000001, []byte{0x41, 0x01, 'x'}),
 		peer.Data(6, 11, false, 0xFFFF, 0xA0000002, nil),
 		peer.Data(127, 254, false, 0x0042, 0xA0000003, []byte{0x41, 0x7F}),
+		// message values a responder might single out: the stream 9 error notices, an abort (function 0), a
+		// secondary nobody asked for
+		peer.Data(9, 1, false, 0x1234, 0xA0000004, []byte{0x21, 0x0A, 0, 0, 0, 0, 0, 0, 0, 0, 0, 1}),
+		peer.Data(9, 9, false, 0x1234, 0xA0000005, nil),
+		peer.Data(9, 3, true, 0x1234, 0xA0000006, []byte{0x21, 0x01, 0x00}),
+		peer.Data(1, 0, false, 0x1234, 0xA0000007, nil),
+		peer.Data(1, 2, false, 0x1234, 0xA0000008, []byte{0x01, 0x00}),
 	}
 	_ = pc.Send(inbound...)
 	before, err := pc.Barrier(10 * time.Second)
